@@ -107,7 +107,10 @@ def date_to_unixtime(date):
     year = date // 10000
     month = date // 100 % 100
     day = date % 100
-    ut = calendar.timegm(datetime.datetime(year, month, day).timetuple())
+    try:
+        ut = calendar.timegm(datetime.datetime(year, month, day).timetuple())
+    except ValueError:
+        error("Invalid date '%d'" % date)
     return ut
 
 
@@ -401,7 +404,10 @@ def get_date(date, diff):
     year = int(date / 10000)
     month = int(date / 100 % 100)
     day = int(date % 100)
-    date2 = datetime.datetime(year, month, day, 0) + datetime.timedelta(diff)
+    try:
+        date2 = datetime.datetime(year, month, day, 0) + datetime.timedelta(diff)
+    except ValueError:
+        error("Invalid date '%d'" % date)
     return int(date2.strftime('%Y%m%d'))
 
 
